@@ -24,29 +24,94 @@ AN = 'chess::chess_move::algebraic_notation::'
 TOALG = 'common::bitboard::square::to_algebraic'
 
 
-def classify_any_closures(ctx, fn_name):
-    """closure name -> 'file' | 'rank' | None"""
+def predicate_tables(ctx, fn_name):
+    """closure name -> truth function {(same_file, same_rank): bool} of an `any` predicate over the other move's origin,
+    or None when the predicate is not a boolean combination of 'same file' / 'same rank' tests"""
     facts = ctx.facts
     res = {}
     for c in facts.closures_of(fn_name):
         outs = Engine(facts, readonly={AN + 'get_file_char', AN + 'get_rank_char', CHESSMOVE + '::from_square'}).run(c.name)
-        rets = [o for o in outs if o.kind == 'return']
-        kinds = set()
-        for o in rets:
-            calls = {s[1].rsplit('::', 1)[-1] for s in subterms(o.value) if s[0] == 'call'}
-            # compares char of the other move's origin with the captured char
-            if 'get_file_char' in calls and 'get_rank_char' not in calls:
-                kinds.add('file')
-            elif 'get_rank_char' in calls and 'get_file_char' not in calls:
-                kinds.add('rank')
-            else:
-                kinds.add('?')
-            uses_other = any(s[0] == 'call' and s[1].endswith('::from_square') for s in subterms(o.value))
-            if not uses_other:
-                kinds.add('?')
-        res[c.name] = kinds.pop() if len(kinds) == 1 else None
         ctx.touch(c.name)
+        rets = [o for o in outs if o.kind == 'return']
+
+        def atom_kind(a):
+            """'F' / 'R' for a comparison of the other move's file/rank char with a captured char, else None"""
+            calls = [s for s in subterms(a) if s[0] == 'call' and s[1] in (AN + 'get_file_char', AN + 'get_rank_char')]
+            ups = [s for s in subterms(a) if s[0] == 'fld' and str(s[2]).startswith('upvar')]
+            if len(calls) != 1 or not ups:
+                return None
+            other = any(s[0] == 'call' and s[1] == CHESSMOVE + '::from_square' and s[2][0] != ('p', 1) for s in subterms(calls[0]))
+            if not other:
+                return None
+            return 'F' if calls[0][1].endswith('get_file_char') else 'R'
+
+        def val_of(t, env):
+            # t: boolean term over atoms
+            if t == C(True):
+                return True
+            if t == C(False):
+                return False
+            if t[0] == 'un' and t[1] == 'Not':
+                v = val_of(t[2], env)
+                return None if v is None else (not v)
+            if t[0] in ('eq', 'eqc', 'bin'):
+                k = atom_kind(t)
+                if k is None:
+                    return None
+                v = env[k]
+                if t[0] == 'bin' and t[1] == 'Ne':
+                    v = not v
+                if t[0] == 'eqc':
+                    # (x == c) form: x itself is a boolean atom
+                    inner = val_of(t[1], env) if t[1][0] in ('eq', 'bin', 'un') else None
+                    if inner is not None:
+                        return inner == bool(t[2])
+                return v
+            return None
+        table = {}
+        ok = True
+        for sf in (0, 1):
+            for sr in (0, 1):
+                env = {'F': bool(sf), 'R': bool(sr)}
+                vals = set()
+                for o in rets:
+                    match = True
+                    for a, v in o.conds:
+                        av = val_of(a, env)
+                        if av is None:
+                            ok = False
+                            match = False
+                            break
+                        want = is_true(v)
+                        if av != want:
+                            match = False
+                            break
+                    if match:
+                        vals.add(val_of(o.value, env))
+                if len(vals) != 1 or None in vals:
+                    ok = False
+                else:
+                    table[(sf, sr)] = vals.pop()
+        # which captured char each comparison uses is checked through the upvar's origin in the parent (file char vs rank char)
+        res[c.name] = table if ok and len(table) == 4 else None
     return res
+
+
+def upvar_kinds(ctx, fn_name):
+    """for each any-closure: does the captured char compared with the other's FILE come from get_file_char(own origin)? (same for rank)"""
+    facts = ctx.facts
+    ro = {CHESSMOVE + '::from_square', CHESSMOVE + '::captures', AN + 'get_file_char', AN + 'get_rank_char', TOALG}
+    outs = Engine(facts, readonly=ro).run(fn_name)
+    kinds = {}
+    for o in outs:
+        for e in o.events:
+            if e[0] == 'closure':
+                caps = []
+                for up in e[2]:
+                    s = show(up)
+                    caps.append('F' if 'get_file_char' in s and 'arg2' in s else ('R' if 'get_rank_char' in s and 'arg2' in s else '?'))
+                kinds[e[1]] = caps
+    return kinds
 
 
 def r1_disambiguation(ctx):
@@ -56,15 +121,19 @@ def r1_disambiguation(ctx):
     ro = {CHESSMOVE + '::from_square', CHESSMOVE + '::captures', AN + 'get_file_char', AN + 'get_rank_char', TOALG}
     outs = Engine(facts, readonly=ro).run(name)
     ctx.touch(name)
-    clos = classify_any_closures(ctx, name)
+    preds = predicate_tables(ctx, name)
     pawn = facts.variant_discr(PIECE_ADT, 'Pawn')
-    # which captured char each closure compares with: upvar = starting file / rank char
-    fn = facts.need_fn(name)
+    bad_pred = [k for k, v in preds.items() if v is None]
+    if bad_pred or not preds:
+        ctx.ob(rule, name, 'any-predicates are boolean combinations of same-file / same-rank tests', False, found=bad_pred or 'no predicate closure',
+               expected='predicates over the other move\'s origin file / rank')
+        return
     rows = []
     for o in outs:
         if o.kind != 'return':
             continue
-        atoms = {'pawn': None, 'capture': None, 'nonempty': None, 'file': None, 'rank': None}
+        atoms = {'pawn': None, 'capture': None, 'nonempty': None}
+        anys = {}
         for a, v in o.conds:
             if a == ('discr', ('p', 1)):
                 atoms['pawn'] = 1 if v == pawn else 0
@@ -72,68 +141,78 @@ def r1_disambiguation(ctx):
                 atoms['capture'] = 1 if v == 1 else 0
             elif a[0] == 'call' and a[1].endswith('Iterator>::any'):
                 clo = a[2][1]
-                kind = clos.get(clo[2]) if clo[0] == 'agg' else None
-                if kind is None:
-                    ctx.ob(rule, name, 'any-predicate recognised', False, found=show(clo), expected='same-file / same-rank predicate')
-                    return
-                atoms[kind] = 1 if is_true(v) else 0
-            elif a[0] == 'call' and (a[1].endswith('::is_empty') or a[1].endswith('::len')):
-                if a[1].endswith('::is_empty'):
-                    atoms['nonempty'] = 0 if is_true(v) else 1
-                else:
-                    atoms['nonempty'] = (0 if v == 0 else 1) if isinstance(v, int) else 1
-            elif a[0] in ('eqc', 'bin') and any(s[0] == 'call' and s[1].endswith('::len') for s in subterms(a)):
-                atoms['nonempty'] = None
+                anys[clo[2]] = 1 if is_true(v) else 0
+            elif a[0] == 'call' and a[1].endswith('::is_empty'):
+                atoms['nonempty'] = 0 if is_true(v) else 1
+            elif a[0] == 'call' and a[1].endswith('::len') and isinstance(v, int):
+                atoms['nonempty'] = 0 if v == 0 else 1
         val = o.value
         s = show(val)
         if val == C(''):
             out = ''
-        elif 'get_file_char' in s and 'get_rank_char' not in s and 'to_algebraic' not in s:
+        elif 'get_file_char' in s and 'get_rank_char' not in s and 'to_algebraic' not in s and 'arg2' in s:
             out = 'file'
-        elif 'get_rank_char' in s and 'get_file_char' not in s and 'to_algebraic' not in s:
+        elif 'get_rank_char' in s and 'get_file_char' not in s and 'to_algebraic' not in s and 'arg2' in s:
             out = 'rank'
-        elif 'to_algebraic' in s and 'from_square' in s:
+        elif 'to_algebraic' in s and 'from_square' in s and 'arg2' in s:
             out = 'square'
         else:
             out = '?' + s[:40]
-        # the char must be the moving piece's own origin
-        rows.append((atoms, out))
+        rows.append((atoms, anys, out))
 
-    def oracle(pc, ne, f, r):
+    def oracle(pc, R):
         if pc:
             return 'file'
-        if not ne:
+        if not R:
             return ''
+        f = (1, 0) in R
+        r = (0, 1) in R
         if not f:
             return 'file'
         if not r:
             return 'rank'
         return 'square'
+    rivals = [(1, 0), (0, 1), (0, 0)]
     bad = {}
     n = 0
-    for pawn_v, cap_v, ne, f, r in itertools.product((0, 1), repeat=5):
-        if (f or r) and not ne:
-            continue            # an other move on the same file/rank is an other move
-        pc = pawn_v and cap_v
-        got = set()
-        for atoms, out in rows:
-            env = {'pawn': pawn_v, 'capture': cap_v, 'nonempty': ne, 'file': f, 'rank': r}
-            if all(atoms[k] is None or atoms[k] == env[k] for k in atoms):
-                got.add(out)
-        n += 1
-        want = oracle(pc, ne, f, r)
-        if got != {want}:
-            key = 'row(pawn-capture=%d,ambiguous=%d,same-file=%d,same-rank=%d)' % (pc, ne, f, r)
-            bad[key] = (sorted(got), want)
+    for pawn_v, cap_v in itertools.product((0, 1), repeat=2):
+        for mask in range(8):
+            R = {rivals[i] for i in range(3) if mask >> i & 1}
+            pc = pawn_v and cap_v
+            env_any = {k: int(any(tbl[r] for r in R)) for k, tbl in preds.items()}
+            got = set()
+            for atoms, anys, out in rows:
+                env = {'pawn': pawn_v, 'capture': cap_v, 'nonempty': int(bool(R))}
+                if all(atoms[k] is None or atoms[k] == env[k] for k in atoms) and all(env_any.get(k) == v for k, v in anys.items()):
+                    got.add(out)
+            n += 1
+            want = oracle(pc, R)
+            if got != {want}:
+                desc = ','.join({(1, 0): 'same-file', (0, 1): 'same-rank', (0, 0): 'elsewhere'}[r] for r in sorted(R, reverse=True)) or 'none'
+                key = 'row(pawn-capture=%d,rivals=%s)' % (pc, desc)
+                bad[key] = (sorted(got), want)
     for key, (got, want) in sorted(bad.items()):
         ctx.ob(rule, name, '%s: %s≠%s' % (key, '/'.join(repr(g) for g in got), repr(want)), False, found=got, expected=want,
-               why='two like pieces that can reach the same square from different files and ranks must still get different labels '
-                   '(the file letter disambiguates)')
+               why='the label must carry the minimal file / rank / square disambiguation among like pieces reaching the same square, '
+                   'and two such pieces must never share a label')
     if not bad:
-        ctx.ob(rule, name, 'decision table equals the SAN disambiguation table (%d assignments)' % n, True, found=[(a, o) for a, o in rows][:3])
-    ctx.floor(rule, 'table rows', len(rows), 5)
-    kinds = sorted(v for v in clos.values() if v)
-    ctx.ob(rule, name, 'one same-file and one same-rank predicate', kinds == ['file', 'rank'], found=clos, expected=['file', 'rank'])
+        ctx.ob(rule, name, 'decision table equals the SAN disambiguation table (%d rival configurations)' % n, True,
+               found={k.rsplit('::', 1)[-1]: {'%d%d' % kk: v for kk, v in tbl.items()} for k, tbl in preds.items()})
+    ctx.floor(rule, 'table rows', len(rows), 4)
+    # captured characters: the file predicate compares with the mover's own file char, the rank predicate with its rank char
+    uk = upvar_kinds(ctx, name)
+    okc = bool(uk)
+    for cname, caps in uk.items():
+        tbl = preds.get(cname) or {}
+        uses_f = tbl.get((1, 0)) != tbl.get((0, 0)) or tbl.get((1, 1)) != tbl.get((0, 1))
+        uses_r = tbl.get((0, 1)) != tbl.get((0, 0)) or tbl.get((1, 1)) != tbl.get((1, 0))
+        if uses_f and 'F' not in caps:
+            okc = False
+        if uses_r and 'R' not in caps:
+            okc = False
+        if '?' in caps:
+            okc = False
+    ctx.ob(rule, name, 'predicates compare with the moving piece\'s own file / rank character', okc, found=uk, expected='captured get_file_char(from) / get_rank_char(from)')
 
 
 def r2_filter(ctx):
